@@ -29,6 +29,8 @@ class KeyCalc(object):
                     # https://www.h-schmidt.net/FloatConverter/IEEE754.html
                     raw = not formatters or formatters[i] == '{' + key + '}'
                     if raw and isinstance(value, (int, float, decimal.Decimal)):
+                        if value == 0:
+                            value = 0  # -0.0 and 0.0 are the same key
                         bits = BitArray(float=value, length=64)
                         # invert the sign bit
                         bits.invert(0)
